@@ -90,6 +90,10 @@ func (h *harness) setupDisk() error {
 	return nil
 }
 
+func setHook(f func(op string, dirfd int, path string, dirfd2 int, path2 string) error) {
+	filesystem.VerifSyscallHook = f
+}
+
 func (h *harness) teardownDisk() {
 	filesystem.VerifSyscallHook = nil
 	if h.disk != nil {
